@@ -1,6 +1,323 @@
 package main
 
-// selfValidate is filled in by selftest_impl.go (checker self-validation against seeded mutants).
-func selfValidate(repo, verif, prop string) []map[string]any { return nil }
+// selftest.go: checker self-validation. Every seeded breaking edit must be detected by the rules of
+// the property it breaks; every benign rewrite must leave all checks silent. The edits are applied
+// to scratch copies of the CURRENT /repo outside /repo and /verif; each copy is analysed by a
+// separate tunnelvet process and removed immediately. This validates the checker; it never
+// contributes to a verdict about /repo.
 
-func selftestCmd(args []string) int { return 2 }
+import (
+	"encoding/json"
+	"flag"
+	"fmt"
+	"os"
+	"os/exec"
+	"path/filepath"
+	"sort"
+	"strings"
+	"sync"
+)
+
+type Mutant struct {
+	ID     string   `json:"id"`
+	File   string   `json:"file,omitempty"`
+	Old    string   `json:"old,omitempty"`
+	New    string   `json:"new,omitempty"`
+	Edits  []Edit   `json:"edits,omitempty"`
+	Patch  string   `json:"patch,omitempty"` // path relative to /verif
+	Expect []string `json:"expect"`          // properties that must report a violation ([] for benign)
+	Rules  []string `json:"rules,omitempty"` // rules expected to fire (informational)
+	Benign bool     `json:"benign,omitempty"`
+	Note   string   `json:"note,omitempty"`
+	Tests  string   `json:"tests,omitempty"` // whether the baseline suite notices (measured or expected)
+}
+
+type Edit struct {
+	File string `json:"file"`
+	Old  string `json:"old"`
+	New  string `json:"new"`
+}
+
+func loadMutants(verif string) ([]Mutant, error) {
+	var out []Mutant
+	files, _ := filepath.Glob(filepath.Join(verif, "mutants", "*.json"))
+	sort.Strings(files)
+	for _, f := range files {
+		b, err := os.ReadFile(f)
+		if err != nil {
+			return nil, err
+		}
+		var ms []Mutant
+		if err := json.Unmarshal(b, &ms); err != nil {
+			return nil, fmt.Errorf("%s: %v", f, err)
+		}
+		out = append(out, ms...)
+	}
+	// seeded/<id>/meta.json + patch.diff (changes written by independent sub-agents)
+	metas, _ := filepath.Glob(filepath.Join(verif, "seeded", "*", "meta.json"))
+	sort.Strings(metas)
+	for _, m := range metas {
+		b, err := os.ReadFile(m)
+		if err != nil {
+			return nil, err
+		}
+		var meta struct {
+			ID       string   `json:"id"`
+			Property string   `json:"property"`
+			Detected []string `json:"detected_by_properties"`
+			Needs    string   `json:"needs"`
+		}
+		if err := json.Unmarshal(b, &meta); err != nil {
+			return nil, fmt.Errorf("%s: %v", m, err)
+		}
+		dir := filepath.Dir(m)
+		exp := meta.Detected
+		if exp == nil {
+			exp = []string{meta.Property}
+		}
+		rel, _ := filepath.Rel(verif, filepath.Join(dir, "patch.diff"))
+		out = append(out, Mutant{ID: "seeded/" + filepath.Base(dir), Patch: rel, Expect: exp, Note: meta.Needs})
+	}
+	return out, nil
+}
+
+type mutResult struct {
+	ID       string              `json:"mutant"`
+	Status   string              `json:"status"` // detected | NOT detected | skipped | silent | FALSE ALARM
+	Detail   string              `json:"detail,omitempty"`
+	ByProp   map[string][]string `json:"rules_fired,omitempty"`
+	Expected []string            `json:"expected,omitempty"`
+}
+
+func copyTree(src, dst string) error {
+	return filepath.Walk(src, func(p string, info os.FileInfo, err error) error {
+		if err != nil {
+			return err
+		}
+		rel, _ := filepath.Rel(src, p)
+		if rel == ".git" {
+			if info.IsDir() {
+				return filepath.SkipDir
+			}
+			return nil
+		}
+		t := filepath.Join(dst, rel)
+		if info.IsDir() {
+			return os.MkdirAll(t, 0o755)
+		}
+		b, err := os.ReadFile(p)
+		if err != nil {
+			return err
+		}
+		return os.WriteFile(t, b, info.Mode())
+	})
+}
+
+func applyMutant(m Mutant, verif, dir string) (string, bool) {
+	if m.Patch != "" {
+		cmd := exec.Command("patch", "-p1", "-s", "--no-backup-if-mismatch", "-i", filepath.Join(verif, m.Patch))
+		cmd.Dir = dir
+		if out, err := cmd.CombinedOutput(); err != nil {
+			return "patch does not apply to this tree: " + strings.TrimSpace(string(out)), false
+		}
+		return "", true
+	}
+	edits := m.Edits
+	if m.File != "" {
+		edits = append(edits, Edit{m.File, m.Old, m.New})
+	}
+	for _, e := range edits {
+		p := filepath.Join(dir, e.File)
+		b, err := os.ReadFile(p)
+		if err != nil {
+			return err.Error(), false
+		}
+		s := string(b)
+		if strings.Count(s, e.Old) != 1 {
+			return fmt.Sprintf("edit anchor occurs %d times in %s (tree changed)", strings.Count(s, e.Old), e.File), false
+		}
+		if err := os.WriteFile(p, []byte(strings.Replace(s, e.Old, e.New, 1)), 0o644); err != nil {
+			return err.Error(), false
+		}
+	}
+	return "", true
+}
+
+func runMutant(m Mutant, repo, verif string, props []string) mutResult {
+	res := mutResult{ID: m.ID, Expected: m.Expect, ByProp: map[string][]string{}}
+	tmp, err := os.MkdirTemp("", "tunnelvet.")
+	if err != nil {
+		res.Status, res.Detail = "skipped", err.Error()
+		return res
+	}
+	defer os.RemoveAll(tmp)
+	dir := filepath.Join(tmp, "repo")
+	if err := copyTree(repo, dir); err != nil {
+		res.Status, res.Detail = "skipped", err.Error()
+		return res
+	}
+	if why, ok := applyMutant(m, verif, dir); !ok {
+		res.Status, res.Detail = "skipped", why
+		return res
+	}
+	self, _ := os.Executable()
+	fired := map[string]bool{}
+	for _, p := range props {
+		cmd := exec.Command(self, "check", "-prop", p, "-repo", dir, "-verif", verif, "-no-evidence", "-json")
+		out, err := cmd.Output()
+		code := 0
+		if ee, ok := err.(*exec.ExitError); ok {
+			code = ee.ExitCode()
+		} else if err != nil {
+			code = 2
+		}
+		if code == 2 {
+			res.Status, res.Detail = "skipped", "edited tree does not load/type-check for "+p+": "+strings.TrimSpace(string(out))
+			return res
+		}
+		for _, line := range strings.Split(string(out), "\n") {
+			if !strings.HasPrefix(line, "{") {
+				continue
+			}
+			var o Obligation
+			if json.Unmarshal([]byte(line), &o) == nil {
+				res.ByProp[p] = append(res.ByProp[p], o.Rule+" @ "+o.Key)
+				fired[p] = true
+			}
+		}
+	}
+	if m.Benign {
+		if len(fired) == 0 {
+			res.Status = "silent"
+		} else {
+			res.Status = "FALSE ALARM"
+		}
+		return res
+	}
+	missing := []string{}
+	for _, p := range m.Expect {
+		if contains(props, p) && !fired[p] {
+			missing = append(missing, p)
+		}
+	}
+	if len(missing) == 0 {
+		res.Status = "detected"
+	} else {
+		res.Status = "NOT detected"
+		res.Detail = "no violation reported by " + strings.Join(missing, ", ")
+	}
+	return res
+}
+
+func contains(ss []string, s string) bool {
+	for _, x := range ss {
+		if x == s {
+			return true
+		}
+	}
+	return false
+}
+
+func runMutants(ms []Mutant, repo, verif string, propsFor func(Mutant) []string, par int) []mutResult {
+	out := make([]mutResult, len(ms))
+	var wg sync.WaitGroup
+	sem := make(chan struct{}, par)
+	for i := range ms {
+		wg.Add(1)
+		go func(i int) {
+			defer wg.Done()
+			sem <- struct{}{}
+			defer func() { <-sem }()
+			out[i] = runMutant(ms[i], repo, verif, propsFor(ms[i]))
+		}(i)
+	}
+	wg.Wait()
+	return out
+}
+
+// selfValidate (thorough tier): the mutants that concern this property.
+func selfValidate(repo, verif, prop string) []map[string]any {
+	ms, err := loadMutants(verif)
+	if err != nil {
+		return []map[string]any{{"error": err.Error()}}
+	}
+	var mine []Mutant
+	for _, m := range ms {
+		if contains(m.Expect, prop) || m.Benign {
+			mine = append(mine, m)
+		}
+	}
+	rs := runMutants(mine, repo, verif, func(Mutant) []string { return []string{prop} }, 8)
+	var out []map[string]any
+	for _, r := range rs {
+		out = append(out, map[string]any{"mutant": r.ID, "status": r.Status, "detail": r.Detail, "rules_fired": r.ByProp[prop]})
+	}
+	return out
+}
+
+func selftestCmd(args []string) int {
+	fs := flag.NewFlagSet("selftest", flag.ExitOnError)
+	repo := fs.String("repo", "/repo", "")
+	verif := fs.String("verif", "/verif", "")
+	only := fs.String("only", "", "substring filter on mutant ids")
+	allProps := fs.Bool("all-props", false, "run every registered property on every mutant (shows cross-detection)")
+	par := fs.Int("j", 8, "parallel workers")
+	fs.Parse(args)
+	ms, err := loadMutants(*verif)
+	if err != nil {
+		fmt.Fprintln(os.Stderr, err)
+		return 2
+	}
+	var sel []Mutant
+	for _, m := range ms {
+		if *only == "" || strings.Contains(m.ID, *only) {
+			sel = append(sel, m)
+		}
+	}
+	var registered []string
+	for id := range props {
+		registered = append(registered, id)
+	}
+	sort.Strings(registered)
+	propsFor := func(m Mutant) []string {
+		if m.Benign || *allProps {
+			return registered
+		}
+		var ps []string
+		for _, p := range m.Expect {
+			if props[p] != nil {
+				ps = append(ps, p)
+			}
+		}
+		return ps
+	}
+	rs := runMutants(sel, *repo, *verif, propsFor, *par)
+	bad := 0
+	counts := map[string]int{}
+	for _, r := range rs {
+		counts[r.Status]++
+		if r.Status == "NOT detected" || r.Status == "FALSE ALARM" {
+			bad++
+		}
+		var fired []string
+		for p, rr := range r.ByProp {
+			seen := map[string]bool{}
+			for _, x := range rr {
+				rule := strings.SplitN(x, " @ ", 2)[0]
+				if !seen[rule] {
+					seen[rule] = true
+					fired = append(fired, p+":"+rule)
+				}
+			}
+		}
+		sort.Strings(fired)
+		fmt.Printf("%-14s %-40s expect=%v fired=%v %s\n", r.Status, r.ID, r.Expected, fired, r.Detail)
+	}
+	fmt.Printf("selftest: %d mutants: %v\n", len(rs), counts)
+	b, _ := json.MarshalIndent(map[string]any{"results": rs, "counts": counts}, "", " ")
+	os.WriteFile(filepath.Join(*verif, "selftest.json"), append(b, '\n'), 0o644)
+	if bad > 0 {
+		return 1
+	}
+	return 0
+}
